@@ -59,10 +59,12 @@ def try_compile(prog, flavor, workdir):
     return False, bad, p.stdout[-3000:]
 
 
-def probe_one(o, dims, flavor, workdir, seed=12345):
+def probe_one(o, dims, flavor, workdir, seed=12345, restrict=None):
     """returns (list of supported configurations, dict cfg -> first error line) for one (op, dims, flavor)"""
     rng = random.Random("%s/%s/%d" % (o.name, dims, seed))
     cands = G.candidates(o)
+    if restrict is not None:
+        cands = [c for c in cands if c in restrict]
     g = G.make_group(0, o, rng, cands, 1, 10**6, dims=dims, all_cfgs=True)
     cfgs = list(g.cfgs)
     errors = {}
@@ -130,10 +132,32 @@ def _first_error(err):
     return err[-200:]
 
 
+def save(sup):
+    """one line per (flavour, operation, dims)"""
+    tmp = G.SUPPORTED_JSON + ".tmp%d" % os.getpid()
+    with open(tmp, "w") as f:
+        f.write("{\n")
+        fls = sorted(sup)
+        for i, fl in enumerate(fls):
+            f.write(" %s: {\n" % json.dumps(fl))
+            ops = sorted(sup[fl])
+            for j, name in enumerate(ops):
+                f.write("  %s: {\n" % json.dumps(name))
+                ds = sorted(sup[fl][name])
+                for k, d in enumerate(ds):
+                    f.write("   %s: %s%s\n" % (json.dumps(d), json.dumps(sup[fl][name][d]), "," if k + 1 < len(ds) else ""))
+                f.write("  }%s\n" % ("," if j + 1 < len(ops) else ""))
+            f.write(" }%s\n" % ("," if i + 1 < len(fls) else ""))
+        f.write("}\n")
+    os.replace(tmp, G.SUPPORTED_JSON)
+
+
 def main(argv):
     ops = None
     flavors = list(G.FLAVORS)
     family = None
+    restrict_to = None
+    redo = False
     it = iter(argv[1:] if argv and argv[0] == "probe" else argv)
     for a in it:
         if a == "--ops":
@@ -142,6 +166,10 @@ def main(argv):
             flavors = next(it).split(",")
         elif a == "--family":
             family = next(it)
+        elif a == "--restrict-to":
+            restrict_to = next(it)
+        elif a == "--redo":
+            redo = True
     sup = G.load_supported()
     todo = []
     for name, o in G.OPS.items():
@@ -151,6 +179,8 @@ def main(argv):
             continue
         for fl in flavors:
             for d in o.dims:
+                if not redo and repr(d) in sup.get(fl, {}).get(name, {}):
+                    continue
                 todo.append((o, d, fl))
     os.makedirs(os.path.join(B.BUILD, "c09_probe"), exist_ok=True)
     workdir = tempfile.mkdtemp(prefix="p%d_" % os.getpid(), dir=os.path.join(B.BUILD, "c09_probe"))
@@ -160,7 +190,10 @@ def main(argv):
     def work(item):
         o, d, fl = item
         t1 = time.time()
-        cfgs, errors, g = probe_one(o, d, fl, workdir)
+        restrict = None
+        if restrict_to and restrict_to != fl:
+            restrict = set(sup.get(restrict_to, {}).get(o.name, {}).get(repr(d), []))
+        cfgs, errors, g = probe_one(o, d, fl, workdir, restrict=restrict)
         sys.stderr.write("[probe] %-22s %-14s %-6s %3d ok %3d rejected  %.0fs\n" % (o.name, d, fl, len(cfgs), len(errors), time.time() - t1))
         return item, cfgs, errors
 
@@ -169,14 +202,23 @@ def main(argv):
             sup.setdefault(fl, {}).setdefault(o.name, {})[repr(d)] = cfgs
             for c, e in errors.items():
                 errlog.setdefault(o.name, {}).setdefault(c, e)
+            save(sup)
     try:
         os.rmdir(workdir)
     except OSError:
         pass
-    with open(G.SUPPORTED_JSON, "w") as f:
-        json.dump(sup, f, indent=0, sort_keys=True)
-        f.write("\n")
-    with open(os.path.join(B.BUILD, "c09_probe", "rejected.json"), "w") as f:
+    # forget dims that are no longer part of an operation
+    for fl in list(sup):
+        for name in list(sup[fl]):
+            if name not in G.OPS:
+                del sup[fl][name]
+                continue
+            keep = {repr(d) for d in G.OPS[name].dims}
+            for d in list(sup[fl][name]):
+                if d not in keep:
+                    del sup[fl][name][d]
+    save(sup)
+    with open(os.path.join(B.BUILD, "c09_probe", "rejected_%d.json" % os.getpid()), "w") as f:
         json.dump(errlog, f, indent=1, sort_keys=True)
     sys.stderr.write("[probe] done in %.0fs\n" % (time.time() - t0))
     return 0
